@@ -47,3 +47,64 @@ package plot
 //@     invariant ls == old(ls) && ls.buf == old(ls.buf) && ls.buf != nil && ls.seq == old(ls.seq) + released && released >= 0 && r.Seq == old(ls.seq)
 //@     invariant forall s int :: has(ls.buf, s) == ((old(has(ls.buf, s)) || s == r.Seq) && !(old(ls.seq) <= s && s < ls.seq))
 //@     invariant forall s int :: has(ls.buf, s) ==> ls.buf[s].seq == s && ls.buf[s].ts != nil && ls.buf[s].ts.data != nil && ls.buf[s].t >= ls.began
+
+// dataPoints as a sort.Interface: Less compares the x column, Swap exchanges two rows.
+//@ func (dataPoints).Len
+//@   property C17
+//@   ensures result == len(ps)
+//@ func (dataPoints).Less
+//@   property C17
+//@   pragma floats real
+//@   requires [rows-in-range] 0 <= i && i < len(ps) && 0 <= j && j < len(ps) && len(ps[i]) >= 1 && len(ps[j]) >= 1
+//@   ensures [orders-by-x] result == (ps[i][0] < ps[j][0])
+//@ func (dataPoints).Swap
+//@   property C17
+//@   requires [rows-in-range] 0 <= i && i < len(ps) && 0 <= j && j < len(ps)
+//@   modifies ps[*]
+//@   ensures [exchanges-two-rows] ps[i] == old(ps[j]) && ps[j] == old(ps[i]) && (forall k int :: 0 <= k && k < len(ps) && k != i && k != j ==> ps[k] == old(ps[k]))
+
+// the comparator handed to sort.Slice (sort.Slice calls it with in-range indices only: assumed)
+//@ func (*Plot).data$1
+//@   property C17
+//@   requires [indices-in-range] 0 <= i && i < len(series) && 0 <= j && j < len(series) && series[i] != nil && series[j] != nil
+
+// timeSeries.iter: the iterator handed to lttb.Downsample walks the pushed points from the first one.
+// (The closure itself and go-tsz's iterator are not modelled: trusted.)
+//@ func (*timeSeries).iter
+//@   property C17
+//@   trusted
+//@   requires [non-nil] ts != nil && ts.data != nil
+//@   ensures result != nil && fresh(result) && icur(result) == 0 && ilen(result) == pushed(ts.data)
+
+// Plot.data: one row per (downsampled) point of every series, one column per series, sorted by x.
+//@ spec func tswf(s *timeSeries) bool = s.data != nil && s.len == pushed(s.data) && s.len >= 0
+//@ func (*Plot).data
+//@   property C17
+//@   pragma floats real
+//@   pragma frame off
+//@   returns (data, labels, err)
+//@   requires [plot-well-formed] p != nil && (forall a string :: has(p.series, a) ==> p.series[a] != nil)
+//@   requires [series-well-formed] forall a, l string :: has(p.series, a) && has(p.series[a].series, l) && p.series[a].series[l] != nil ==> tswf(p.series[a].series[l])
+//@   pragma fits count += s.len
+//@   ghost rows int = 0
+//@   before call Slice: assert [comparator-precondition-holds-for-all-in-range-indices] forall k int :: 0 <= k && k < len(series) ==> series[k] != nil
+//@   at call Slice: havoc series[*] ; assume [sort.Slice-permutes-the-series] forall k int :: 0 <= k && k < len(series) ==> series[k] != nil && tswf(series[k])
+//@   at call Downsample: ghost rows = rows + len(result0)
+//@   before call Sort: assert [one-row-per-downsampled-point] len(data) == rows ;
+//@        assert [one-column-per-series-plus-x] forall k int :: 0 <= k && k < len(data) ==> len(data[k]) == 1 + len(series)
+//@   at call Sort: havoc data[*] ; assume [sort.Sort-orders-by-Less] forall a, b int :: 0 <= a && a < b && b < len(data) ==> len(data[a]) >= 1 && len(data[b]) >= 1 && !(data[b][0] < data[a][0])
+//@   ensures [sorted-by-x] err == nil ==> (forall a, b int :: 0 <= a && a < b && b < len(data) ==> data[a][0] <= data[b][0])
+//@   ensures [one-label-per-column] err == nil ==> len(labels) >= 1 && labels[0] == "Seconds"
+//@   loop 1
+//@     invariant p == old(p) && count >= 0 && (forall k int :: 0 <= k && k < len(series) ==> series[k] != nil && tswf(series[k]))
+//@   loop 2
+//@     invariant p == old(p) && count >= 0 && (forall k int :: 0 <= k && k < len(series) ==> series[k] != nil && tswf(series[k]))
+//@   loop 3
+//@     invariant -1 <= rangeindex && rangeindex < len(series) && size == 1 + len(series) && len(labels) == size && fresh(labels) && labels[0] == "Seconds"
+//@     invariant forall k int :: 0 <= k && k < len(series) ==> series[k] != nil && tswf(series[k])
+//@     invariant len(data) == rows && fresh(data) && (forall k int :: 0 <= k && k < len(data) ==> len(data[k]) == size)
+//@   loop 4
+//@     invariant -1 <= rangeindex && rangeindex < len(points)
+//@     invariant len(data) + len(points) - rangeindex - 1 == rows && fresh(data) && (forall k int :: 0 <= k && k < len(data) ==> len(data[k]) == size)
+//@   loop 5
+//@     invariant -1 <= rangeindex && rangeindex < len(pt) && len(pt) == size && fresh(pt)
